@@ -10,6 +10,7 @@ from .rules import ps as PS
 from .rules import th as TH
 from .rules import misc as MI
 from .rules import mt as MT
+from .rules import scan as SC
 
 TRUST = ('trusted: the CPython parser (ast), the callee resolver of sa/model.py (receiver roles, '
          'unique method names), Python list/str/re semantics as encoded in the rules; ')
@@ -24,7 +25,7 @@ def prop(pid, rules, explanation, level, note, technique, design_ref, assumption
 
 
 prop('C01',
-     [PD.pd1, PD.pd2, PD.pd3, PD.pd4, PD.pd5, MI.pd0, MI.tx1, MI.df1, EM.em1, AB.ab1, LS.ls1, LS.ls1_ml, LS.ls1_shell, AB.ab3,
+     [PD.pd1, PD.pd2, PD.pd3, PD.pd4, PD.pd5, SC.pd6, MI.pd0, MI.tx1, MI.df1, EM.em1, AB.ab1, LS.ls1, LS.ls1_ml, LS.ls1_shell, AB.ab3,
       T.sp3],
      'inductive argument from static rules: tokens outside the scanner are pinned, '
      'single-character or faithful copies (PD1, PD2, SP3), pinned positions are never shifted '
@@ -43,7 +44,7 @@ prop('C01',
      'DESIGN.md 3.1, 3.2, 4 C01')
 
 prop('C02',
-     [PD.pd1, PD.pd3, PD.pd4, PD.pd5, MI.pd0, MI.tx1, T.sp3, LS.ls1],
+     [SC.pd6, PD.pd1, PD.pd3, PD.pd4, PD.pd5, MI.pd0, MI.tx1, T.sp3, LS.ls1],
      'copied text keeps its own offset: argument tokens are moved, never rewritten (PD5); a '
      'shortened token advances its position by the removed prefix, only if unpinned (PD4, '
      'PD3); replaced sequences are copy-form tokens at the position of the sequence (PD1, '
@@ -94,6 +95,17 @@ prop('C06',
      'static analysis: literal table evaluation against a frozen reference + AST '
      'classification of the sort key and the matching loop',
      'DESIGN.md 3.8 (SP1-SP3), 3.6 (IX4), 4 C06')
+
+prop('C07',
+     [SC.pd6, T.ix4],
+     'progress of the scanner on every path (PD6: the scan position strictly increases, with '
+     'bounds of next()/find() results), well-formed tables (IX4)',
+     'decides termination of the scanner and table well-formedness; further index-safety rules '
+     'are added below; not decided: absence of every exception kind on every path, recursion '
+     'depth, expansion blow-up (excluded by the property)',
+     '',
+     'static analysis: symbolic evaluation of the scanner with affine bounds; table evaluation',
+     'DESIGN.md 3.6, 4 C07')
 
 prop('C08',
      [EM.em1, EM.em2, EM.em3, AB.ab1],
